@@ -153,9 +153,19 @@ def gen_instance(rng, nmax=10, nu=0, m=0, tie_free=False, kinds=("feat", "mat", 
             for b in range(a + 1, N):
                 D[a][b] = D[b][a] = float(vals.pop())
         order = list(range(N)); rng.shuffle(order)
+        small = [0.05 * (j + 1) for j in range(4 * N)]
+        rng.shuffle(small)
         for t in range(rng.randint(1, max(1, N // 3))):
             a, b = order[2 * t], order[2 * t + 1]
             D[a][b] = D[b][a] = 0.0
+            # ... and are far from interchangeable: b is close to a few samples that are far from a (mostly of their own class)
+            for s_ in rng.sample([v for v in range(N) if v not in (a, b)], min(N - 2, rng.randint(1, 3))):
+                D[b][s_] = D[s_][b] = small.pop()
+                if rng.random() < 0.7 and a < n and b < n and s_ < n:
+                    labels[b] = labels[s_] = labels[a]
+        if len(set(labels)) < 2:
+            labels[order[-1] % n] = (labels[0] + 1) % 2 if max(labels) < 1 else [l for l in range(max(labels) + 1) if l != labels[0]][0]
+        labels = [sorted(set(labels)).index(l) for l in labels]
         return Instance("zeroarcs", None, labels, D, nu, m, None)
     if kind == "nondiss":
         # a "distance" that is not a dissimilarity (gaussian: d(x, x) = 1 is its LARGEST value); the scan rule of C03 is about
